@@ -28,12 +28,14 @@ Record secret := { s_bytes : N; s_pub : N }.
 Inductive token :=
 | TkSelf (bytes : N)          (* blake3(secret bytes)[0..7] *)
 | TkPair (lo hi : N)          (* blake3(dh)[0..7]; the DH value is a function of the two public keys *)
-| TkInvite (inv : N).         (* derive_token("P", invite id) *)
+| TkInvite (inv : N)          (* derive_token("P", invite id) *)
+| TkOwn.                      (* derive_token("MEETING_TOKEN", database key): the instance's own allowed-peer entry *)
 Definition token_eqb (a b : token) : bool :=
   match a, b with
   | TkSelf x, TkSelf y => N.eqb x y
   | TkPair a1 a2, TkPair b1 b2 => N.eqb a1 b1 && N.eqb a2 b2
   | TkInvite x, TkInvite y => N.eqb x y
+  | TkOwn, TkOwn => true
   | _, _ => false
   end.
 Definition dh_pair (me : secret) (their : N) : N * N := (N.min (s_pub me) their, N.max (s_pub me) their).
